@@ -157,6 +157,8 @@ def validate_traces(base, varnames, traces, actions, cfg_consts='', initpred='In
     (trace_index, matched_len, total_len) and stats has states/transitions."""
     if not traces:
         return [], dict(states=0, transitions=0, wall=0.0)
+    # a variable the harness could not observe in every recorded state is left for TLC to infer
+    varnames = [v for v in varnames if all(v in st for tr in traces for _, st in tr)]
     nproc = max(1, min(nproc, len(traces)))
     chunks = [list(range(i, len(traces), nproc)) for i in range(nproc)]
     t0 = time.time()
